@@ -320,6 +320,14 @@ def plan_session(rng, P, cfn, csvc, sfn, ssvc, transport, proto, per_method, tam
     reqs = [reqs[i] for i in order]
     req = {"op": "c03_session", "service": svc_key(cfn, csvc), "server": svc_key(sfn, ssvc),
            "transport": transport, "proto": proto, "calls": reqs}
+    # the same calls once more, all in flight at once through the one client (several goroutines sharing it)
+    served = {wire_name(m) for _, _, m in L.service_methods(p, sfn, ssvc)}
+    elig = [i for i, c in enumerate(calls) if not c.m["oneway"] and not c.unwritable and c.tamper is None
+            and c.desc[0] in ("ret", "exc") and wire_name(c.m) in served]
+    if len(elig) >= 2 and not tamper:
+        rng.shuffle(elig)
+        req["burst"] = elig[:12]
+        req["burst_rounds"] = 3
     return req, calls
 
 
@@ -697,6 +705,44 @@ def _run_program(ctx, prog, lb, plan, stats, judge_cases, judge_meta):
             m2 = dict(rep)
             m2.pop("idl", None)
             per_case[key][1].append(m2)
+        # --- the burst: each concurrent call observes what the same call observed alone (which was judged above)
+        for b in resp.get("burst") or []:
+            stats["burst_calls"] += 1
+            i = b["index"]
+            if i >= len(resp["calls"]) or "client" not in resp["calls"][i]:
+                continue
+            alone = resp["calls"][i]
+            problems = []
+            cb = calls[i]
+            def _noaddr(cl):
+                # an undeclared exception's message prints pointer fields as addresses: not part of the outcome
+                cl = dict(cl or {})
+                if cl.get("kind") == "appexc" and cl.get("msg"):
+                    cl["msg"] = re.sub(rb"0xc[0-9a-f]{6,12}", b"0xPTR", bytes.fromhex(cl["msg"])).hex()
+                return cl
+            try:
+                same = observed_client(P, cb, _noaddr(b.get("client"))) == observed_client(P, cb, _noaddr(alone["client"]))
+            except Exception:
+                same = b.get("client") == alone["client"]
+            if not same:
+                problems.append("caller got %s, alone it got %s" % (str(b.get("client"))[:300], str(alone["client"])[:300]))
+            def _inv(hs):
+                r = []
+                for h in hs or []:
+                    seen = [L.from_wire(p, a["type"], j) for a, j in zip(cb.m["args"], h.get("args") or [])]
+                    r.append((h["service"], h["method"], norm_args(P, cb.m, seen)))
+                return r
+            hb, ha = _inv(b.get("handler")), _inv(alone.get("handler"))
+            if hb != ha:
+                problems.append("handler invocations %s, alone %s" % (str(hb)[:200], str(ha)[:200]))
+            if problems:
+                rep = dict(base)
+                rep.update({"method": calls[i].m["name"], "call": req["calls"][i], "burst": req["burst"], "observed": b,
+                            "alone": alone, "idl": L.render(p)})
+                ctx.violation("C03: %s over %s/%s with %d calls in flight through one client: %s" % (
+                    calls[i].m["name"], transport, proto, len(req["burst"]), "; ".join(problems)), rep)
+            else:
+                stats["burst_ok"] += 1
         if failed_session is not None and len(ctx.violations) == failed_session[1]:
             rep = dict(base)
             rep.update({"idl": L.render(p), "response": str(failed_session[0])[:1500], "request": req,
